@@ -156,6 +156,13 @@ impl MockSink {
         s.0.lock().unwrap().cap = cap.max(1);
         s
     }
+    /// like `new`, but `cap == 0` is taken literally: while blocked the sink is not ready
+    /// even for its first frame
+    pub fn new_exact(cap: usize) -> Self {
+        let s = MockSink::default();
+        s.0.lock().unwrap().cap = cap;
+        s
+    }
     pub fn block(&self, b: bool) {
         let mut s = self.0.lock().unwrap();
         s.blocked = b;
